@@ -84,6 +84,20 @@ def run(ctx, chk):
                key="B12.5|write_with|data-write-without-meta-lock",
                msg="compaction can punch a region's reserve tail while a writer is copying an append into it: the writer "
                    "holds no metadata lock between reading (len, reserved) and publishing the new len")
+    # B12.7 the hole map rebuilt at open: gaps are computed between neighbours in START order
+    from order import iteration_order
+    LF = O.body("<rawdb::layout::Layout as core::convert::From<&rawdb::regions::Regions>>::from")
+    for b in O.need_sites(LF, M(r"rawdb::layout::Layout::insert_hole"), 1):
+        t = LF.blocks[b]["term"]
+        orders = sorted(set(iteration_order(O, LF, t["args"][1])) | set(iteration_order(O, LF, t["args"][2])))
+        ok = bool(orders) and all((k == "btree" and ty == "usize") or k == "sorted-seq" for k, ty in orders)
+        chk.oblige("B12.7 Layout::from: holes are the gaps between regions enumerated in start order %s" % (orders,), ok,
+                   key="B12.7|Layout::from|gap-order",
+                   msg="gaps computed between regions in slot (creation) order are wrong as soon as a region has moved: "
+                       "space of a live region is recorded as a hole and later handed out or punched")
+    # B12.6 = A10.2d: a relocation target is no longer listed as a hole while bytes are copied into it
+    from props.c10 import hole_target_removed
+    hole_target_removed(ctx, chk, "B12.6")
     # B12.4 what becomes a punchable hole at compact's own flush was never grown into: pending holes are occupied space
     pending_holes_occupied(ctx, chk, "B12.4")
     ph = O.body(PUNCH_HOLES)
